@@ -369,13 +369,9 @@ func HasBIOSPolicy(txtAPI hwapi.LowLevelHardwareInterfaces, p *PreSet) (bool, er
 	return true, nil, nil
 }
 
-func getFITDataSize(hdr fit.EntryHeaders, txtAPI hwapi.LowLevelHardwareInterfaces) uint64 {
+func getFITDataSize(hdr fit.EntryHeaders, txtAPI hwapi.LowLevelHardwareInterfaces) (uint64, error) {
 	firmware := newTXTAPIFirmwareReadSeeker(txtAPI)
-	result, err := fit.EntryDataSegmentSize(fit.NewEntry(&hdr, firmware), firmware)
-	if err != nil {
-		panic(err)
-	}
-	return result
+	return fit.EntryDataSegmentSize(fit.NewEntry(&hdr, firmware), firmware)
 }
 
 // IBBCoversResetVector checks if BIOS Startup Module Entry covers Reset Vector
@@ -383,7 +379,11 @@ func IBBCoversResetVector(txtAPI hwapi.LowLevelHardwareInterfaces, p *PreSet) (b
 	for _, hdr := range fitHeaders {
 		if hdr.Type() == fit.EntryTypeBIOSStartupModuleEntry {
 			addr := hdr.Address.Pointer()
-			coversRv := addr <= ResetVector && addr+uint64(getFITDataSize(hdr, txtAPI)) >= ResetVector+4
+			size, err := getFITDataSize(hdr, txtAPI)
+			if err != nil {
+				return false, nil, err
+			}
+			coversRv := addr <= ResetVector && addr+size >= ResetVector+4
 
 			if coversRv {
 				return true, nil, nil
@@ -399,7 +399,11 @@ func IBBCoversFITVector(txtAPI hwapi.LowLevelHardwareInterfaces, p *PreSet) (boo
 	for _, hdr := range fitHeaders {
 		if hdr.Type() == fit.EntryTypeBIOSStartupModuleEntry {
 			addr := hdr.Address.Pointer()
-			coversRv := addr <= FITVector && addr+uint64(getFITDataSize(hdr, txtAPI)) >= FITVector+4
+			size, err := getFITDataSize(hdr, txtAPI)
+			if err != nil {
+				return false, nil, err
+			}
+			coversRv := addr <= FITVector && addr+size >= FITVector+4
 			if coversRv {
 				return true, nil, nil
 			}
@@ -414,7 +418,11 @@ func IBBCoversFIT(txtAPI hwapi.LowLevelHardwareInterfaces, p *PreSet) (bool, err
 	for _, hdr := range fitHeaders {
 		if hdr.Type() == fit.EntryTypeBIOSStartupModuleEntry {
 			addr := hdr.Address.Pointer()
-			coversRv := addr <= uint64(fitPointer) && addr+uint64(getFITDataSize(hdr, txtAPI)) >= uint64(fitPointer+uint32(len(fitHeaders)*16))
+			size, err := getFITDataSize(hdr, txtAPI)
+			if err != nil {
+				return false, nil, err
+			}
+			coversRv := addr <= uint64(fitPointer) && addr+size >= uint64(fitPointer+uint32(len(fitHeaders)*16))
 
 			if coversRv {
 				return true, nil, nil
@@ -431,8 +439,16 @@ func NoIBBOverlap(txtAPI hwapi.LowLevelHardwareInterfaces, p *PreSet) (bool, err
 		if hdr1.Type() == fit.EntryTypeBIOSStartupModuleEntry {
 			for j, hdr2 := range fitHeaders {
 				if i < j && hdr2.Type() == fit.EntryTypeBIOSStartupModuleEntry {
-					a := hdr1.Address.Pointer() >= hdr2.Address.Pointer()+uint64(getFITDataSize(hdr2, txtAPI))
-					b := hdr2.Address.Pointer() >= hdr1.Address.Pointer()+uint64(getFITDataSize(hdr1, txtAPI))
+					size1, err := getFITDataSize(hdr1, txtAPI)
+					if err != nil {
+						return false, nil, err
+					}
+					size2, err := getFITDataSize(hdr2, txtAPI)
+					if err != nil {
+						return false, nil, err
+					}
+					a := hdr1.Address.Pointer() >= hdr2.Address.Pointer()+size2
+					b := hdr2.Address.Pointer() >= hdr1.Address.Pointer()+size1
 
 					if !a && !b {
 						return false, fmt.Errorf("BIOS Startup Module Entries overlap "), nil
@@ -451,8 +467,16 @@ func NoBIOSACMOverlap(txtAPI hwapi.LowLevelHardwareInterfaces, p *PreSet) (bool,
 		if hdr1.Type() == fit.EntryTypeBIOSStartupModuleEntry {
 			for _, hdr2 := range fitHeaders {
 				if hdr2.Type() == fit.EntryTypeStartupACModuleEntry {
-					a := hdr1.Address.Pointer() >= hdr2.Address.Pointer()+uint64(getFITDataSize(hdr2, txtAPI))
-					b := hdr2.Address.Pointer() >= hdr1.Address.Pointer()+uint64(getFITDataSize(hdr1, txtAPI))
+					size1, err := getFITDataSize(hdr1, txtAPI)
+					if err != nil {
+						return false, nil, err
+					}
+					size2, err := getFITDataSize(hdr2, txtAPI)
+					if err != nil {
+						return false, nil, err
+					}
+					a := hdr1.Address.Pointer() >= hdr2.Address.Pointer()+size2
+					b := hdr2.Address.Pointer() >= hdr1.Address.Pointer()+size1
 
 					if !a && !b {
 						return false, fmt.Errorf("startup AC Module Entries overlap"), nil
@@ -469,7 +493,11 @@ func NoBIOSACMOverlap(txtAPI hwapi.LowLevelHardwareInterfaces, p *PreSet) (bool,
 func BIOSACMIsBelow4G(txtAPI hwapi.LowLevelHardwareInterfaces, p *PreSet) (bool, error, error) {
 	for _, hdr := range fitHeaders {
 		if hdr.Type() == fit.EntryTypeStartupACModuleEntry {
-			if hdr.Address.Pointer()+uint64(getFITDataSize(hdr, txtAPI)) > uint64(FourGiB) {
+			size, err := getFITDataSize(hdr, txtAPI)
+			if err != nil {
+				return false, nil, err
+			}
+			if hdr.Address.Pointer()+size > uint64(FourGiB) {
 				return false, fmt.Errorf("startup AC Module Entry is above 4Gib"), nil
 			}
 		}
